@@ -201,6 +201,7 @@ func checkC19(c *C19Case) Result {
 	}
 	res.NonTrivial = n >= 2
 	res.Labels = append(res.Labels, fmt.Sprintf("N:%s", bucket(n)))
+	res.Counts = map[string]float64{"fault_points_enumerated": float64(limit), "fault_points_capped": float64(n - limit), "queries_with_all_k_enumerated": 1}
 	return res
 }
 
@@ -279,6 +280,49 @@ func checkC19Raise(c *C19Case) Result {
 	return res
 }
 
+// c19Grid (runs once per check, before the random search): for every wide construct, a fixed number
+// of generator examples (drawn with fixed seeds, so the same on every run) x every fault position of the
+// template x every invocation index k - the systematic part of the fault enumeration.
+func c19Grid(st *Stats) (string, any) {
+	constructs := map[string]bool{}
+	var order []string
+	for _, c := range wideConstructs {
+		if !constructs[c] {
+			constructs[c] = true
+			order = append(order, c)
+		}
+	}
+	queries, positions, points := 0, 0, 0.0
+	for _, construct := range order {
+		gen := rapid.Custom(func(t *rapid.T) *WideQ { return genWide(t, []string{construct}) })
+		for seed := 0; seed < 6; seed++ {
+			w := gen.Example(seed)
+			queries++
+			for plant := range w.markers() {
+				c := &C19Case{W: w, Plant: plant, Kind: "fn"}
+				r := checkC19(c)
+				if r.Harness != "" {
+					return "harness: " + r.Harness, c
+				}
+				if r.Violation != "" {
+					return "construct x position x k grid: " + r.Violation, c
+				}
+				if r.Discard == "" {
+					positions++
+					points += r.Counts["fault_points_enumerated"]
+				}
+			}
+		}
+	}
+	st.mu.Lock()
+	st.Extra["grid_constructs"] = float64(len(order))
+	st.Extra["grid_queries"] = float64(queries)
+	st.Extra["grid_positions_enumerated"] = float64(positions)
+	st.Extra["grid_fault_points_enumerated"] = points
+	st.mu.Unlock()
+	return "", nil
+}
+
 func init() {
 	Register(&Prop{
 		ID:    "C19",
@@ -292,6 +336,7 @@ func init() {
 			"RAISE_WHEN in select lists, CTE bodies, derived tables and row-scoped subqueries with an engine-evaluated probe deciding whether it " +
 			"fires. Oracle: New/Exec return an error and no rows (no panic); afterwards the same query without the fault and SELECT * on the SAME input " +
 			"object return what they return on a pristine copy. Non-trivial: N >= 2 (failures mid-stream), a planted type error, or a RAISE that fires. " +
+			"Before the random search a fixed grid runs on every invocation: every construct x 6 generator examples with fixed seeds x every fault position x every k. " +
 			"evaluations = generated (query, position) cases; engine_executions counts every run incl. all k.",
 		Assumptions: []string{
 			"only synchronous calls (statement); positions where the engine rejects a function call (join ON, aggregate arguments under GROUP BY) are discarded and counted",
@@ -300,6 +345,7 @@ func init() {
 		Gen:      genC19,
 		New:      func() any { return &C19Case{} },
 		Check:    func(c any) Result { return checkC19(c.(*C19Case)) },
+		Extra:    c19Grid,
 		Quick:    1200,
 		Thorough: 60000,
 	})
